@@ -40,8 +40,8 @@ def run(ctx):
     for name, behs in sets:
         if q:
             passes = [-1]
-        elif name == "sg":
-            passes = [-1, 1, 5]          # rotation + the two most adversarial tables on the big set
+        elif name in ("sg", "d"):
+            passes = [-1, 1, 5]          # rotation + the two most adversarial tables on the big sets
         else:
             passes = list(range(ntab))
         for tset in passes:
